@@ -44,6 +44,7 @@ class NpArr(Model):
         return NpArr([I.binop(op, a, other) for a in self.data])
 
     def iop(self, I, op, other):
+        no_heap_mutation_in_summary(I, "a numpy vector")
         r = self.binop(I, op, other, False)
         self.data[:] = r.data  # in-place: aliases observe the update
         return self
@@ -148,6 +149,13 @@ class SymSeq(Model):
         return _num_or_int(self.length)
 
     def getitem(self, I, idx):
+        if isinstance(idx, slice) and idx.start is None and idx.step is None and idx.stop is not None:
+            # prefix [:n]
+            if self.tail:
+                raise Unsupported("prefix slice of a symbolic sequence with appended elements")
+            stop = I.to_num(idx.stop)
+            I.P.check("slice-within-length[%s]" % I.site(None), z3.And(I.P.z(stop) >= 0, I.P.z(stop) <= I.P.z(self.length)), "[:%r] of %s" % (stop, self.key))
+            return SymSeq("%s[:%s]" % (self.key, stop.key()), stop, self.elem, self.facts)
         if isinstance(idx, slice):
             if idx.step is not None or idx.stop is not None:
                 raise Unsupported("slice of a symbolic sequence other than [k:]")
@@ -297,6 +305,11 @@ class SymSeq(Model):
         summarise_loop(I, self, node, fr)
 
 
+def no_heap_mutation_in_summary(I, what):
+    if I.P.ghost.get("summary_depth", 0) > 0:
+        raise Unsupported("the body of a summarised loop mutates %s (needs a loop contract)" % what)
+
+
 def loop_carried_names(loop, store_ok=()):
     """Names assigned in the loop body that may be read before they are (definitely) assigned in the same iteration, plus
     attribute/subscript stores: such a body is not a set of independent iterations."""
@@ -394,10 +407,16 @@ def summarise_loop(I, seq, node, fr):
     I.P.assume(z3.And(I.P.z(i) >= 0, I.P.z(i) < zl))
     I.assign_target(node.target, seq.core_at(I, i), fr)
     trail_before = len(I.P.trail)
+    # a summarised body may only accumulate into local numbers / append to local lists: any other heap mutation is outside the rule
+    I.P.ghost["summary_depth"] = I.P.ghost.get("summary_depth", 0) + 1
+    I.P.ghost.setdefault("summary_local_lists", []).append([id(v) for v in before.values() if isinstance(v, list)])
     try:
         I.exec_block(node.body, fr)
     except (_Break, _Continue):
         raise Unsupported("break/continue in a summarised loop")
+    finally:
+        I.P.ghost["summary_depth"] -= 1
+        I.P.ghost["summary_local_lists"].pop()
     if len(I.P.trail) != trail_before:
         raise Unsupported("branching on the loop element inside a summarised loop (needs a loop contract)")
     target_names = set(n.id for n in ast.walk(node.target) if isinstance(n, ast.Name))
@@ -922,7 +941,7 @@ BUILTINS = {n: PyBuiltin(n, f) for n, f in {
     "list": py_list, "enumerate": py_enumerate, "zip": py_zip, "abs": py_abs, "float": py_float, "int": py_int,
     "round": py_round, "hash": py_hash, "print": py_print, "sorted": py_sorted, "any": py_any, "all": py_all,
     "tuple": lambda I, x=(): tuple(I.iterate(x)), "dict": lambda I, x=None, **k: dict(x or {}, **k),
-    "set": lambda I, x=(): _mkset(I, x), "frozenset": lambda I, x=(): _mkset(I, x),
+    "set": lambda I, x=(): _mkset(I, x, frozen=False), "frozenset": lambda I, x=(): _mkset(I, x),
     "str": lambda I, x="": x if isinstance(x, str) else "<str>", "reversed": lambda I, x: list(reversed(I.iterate(x))),
     "map": lambda I, f, *xs: (xs[0].map(I, "map(%s)" % xs[0].key, lambda v: I.call(f, [v], {})) if len(xs) == 1 and isinstance(xs[0], SymSeq)
                               else [I.call(f, list(a), {}) for a in zip(*[I.iterate(x) for x in xs])]),
@@ -931,7 +950,7 @@ BUILTINS = {n: PyBuiltin(n, f) for n, f in {
 }.items()}
 
 
-def _mkset(I, x):
+def _mkset(I, x, frozen=True):
     items = I.iterate(x)
     res = []
     for v in items:
@@ -940,7 +959,7 @@ def _mkset(I, x):
     if any(isinstance(v, (Num, Obj, Model)) for v in res):
         return SetVal(res)
     try:
-        return frozenset(res)
+        return frozenset(res) if frozen else SetVal(res)
     except TypeError:
         return SetVal(res)
 
@@ -995,10 +1014,16 @@ def py_getattr(I, obj, name, node=None):
 
 
 def _list_method(lst, name):
+    def _guard(I):
+        if I.P.ghost.get("summary_depth", 0) > 0 and id(lst) not in I.P.ghost["summary_local_lists"][-1]:
+            raise Unsupported("the body of a summarised loop mutates a list that is not a local accumulator")
+
     def append(I, x):
+        _guard(I)
         lst.append(x)
 
     def extend(I, xs):
+        _guard(I)
         lst.extend(I.iterate(xs))
 
     def pop(I, idx=-1):
@@ -1105,6 +1130,7 @@ def _set_method(s, name):
         return acc
 
     def add(I, x):
+        no_heap_mutation_in_summary(I, "a set")
         if isinstance(s, SetVal):
             if not any(I.equal(x, w) is True for w in s.items):
                 s.items.append(x)
@@ -1122,3 +1148,382 @@ def _set_method(s, name):
             add(I, x)
 
     return {"copy": copy, "isdisjoint": isdisjoint, "issuperset": issuperset, "add": add, "discard": discard, "update": update}[name]
+
+
+# ----------------------------------------------------------------------------------------------------------- 2-D arrays
+
+
+class Arr2(Model):
+    """numpy float array of symbolic shape (D, G): elem(d, k) -> Num.  The object is mutable: in-place operators, `out=`,
+    mask stores and row-view stores replace the element function, so aliases observe the update (as in numpy)."""
+
+    py_classes = ("ndarray",)
+    counter = [0]
+
+    def __init__(self, D, G, elem, name=None):
+        Arr2.counter[0] += 1
+        self.id = Arr2.counter[0]
+        self.D = D if isinstance(D, Num) else Num.const(D)
+        self.G = G if isinstance(G, Num) else Num.const(G)
+        self.elem = elem
+        self.name = name or "arr%d" % self.id
+        self.frozen = False  # set for arrays that must not be written (values handed out by a cache)
+        self.writes = 0
+
+    @staticmethod
+    def symbolic(name, D, G):
+        return Arr2(D, G, lambda d, k: alg.raw_app(name, d, k), name)
+
+    def at(self, I, d, k):
+        return self.elem(I.to_num(d), I.to_num(k))
+
+    def _write(self, I, what):
+        no_heap_mutation_in_summary(I, "array " + self.name)
+        self.writes += 1
+        if self.frozen:
+            I.P.vcs.append(VC("no-write-to-cached-array[%s@%s]" % (self.name, I.site(None)), "refuted", "%s writes into an array that was obtained from a cache" % what))
+
+    def a_shape(self, I):
+        return (_num_or_int(self.D), _num_or_int(self.G))
+
+    def _bcast(self, I, other, f):
+        me = self.elem
+        if isinstance(other, Arr2):
+            oe = other.elem
+            od1 = other.D.is_const() and other.D.const_value() == 1 and not (self.D.is_const() and self.D.const_value() == 1)
+            og1 = other.G.is_const() and other.G.const_value() == 1 and not (self.G.is_const() and self.G.const_value() == 1)
+            if not og1 and other.G.key() != self.G.key() or not od1 and other.D.key() != self.D.key():
+                raise Unsupported("broadcast of shapes (%r,%r) and (%r,%r)" % (self.D, self.G, other.D, other.G))
+            return lambda d, k: f(me(d, k), oe(Num.const(0) if od1 else d, Num.const(0) if og1 else k))
+        if isinstance(other, Model):
+            raise Unsupported("Arr2 op %s" % type(other).__name__)
+        return lambda d, k: f(me(d, k), other)
+
+    def binop(self, I, op, other, swapped):
+        f = (lambda a, b: I.binop(op, b, a)) if swapped else (lambda a, b: I.binop(op, a, b))
+        return Arr2(self.D, self.G, self._bcast(I, other, f))
+
+    def iop(self, I, op, other):
+        self._write(I, "an in-place operator")
+        self.elem = self._bcast(I, other, lambda a, b: I.binop(op, a, b))
+        return self
+
+    def compare(self, I, op, other):
+        return Mask2(self, op, other)
+
+    def map(self, I, f, out=None):
+        me = self.elem
+        tgt = out if out is not None else Arr2(self.D, self.G, None)
+        if out is not None:
+            out._write(I, "an out= argument")
+        tgt.elem = lambda d, k: f(me(d, k))
+        return tgt
+
+    def getitem(self, I, idx):
+        if isinstance(idx, tuple) and len(idx) == 2:
+            d, k = idx
+            if d is Ellipsis and isinstance(k, slice):
+                d = slice(None)
+            if isinstance(k, slice) and isinstance(d, slice):
+                if k.start is None and k.step is None and d == slice(None):
+                    stop = self.G if k.stop is None else I.to_num(k.stop)
+                    return Arr2(self.D, stop, self.elem)
+                raise Unsupported("2-D slice")
+            if isinstance(k, slice):
+                if k != slice(None):
+                    raise Unsupported("row slice other than [i, :]")
+                return RowView(self, I.to_num(d))
+            if isinstance(d, slice):
+                raise Unsupported("column view")
+            d, k = I.to_num(d), I.to_num(k)
+            if k.is_const() and k.const_value() < 0:
+                k = self.G + k
+            zd, zk = I.P.z(d), I.P.z(k)
+            I.P.check("array-index-in-range[%s]" % I.site(None), z3.And(zd >= 0, zd < I.P.z(self.D), zk >= 0, zk < I.P.z(self.G)), "index [%r, %r] into shape (%r, %r)" % (d, k, self.D, self.G))
+            return self.elem(d, k)
+        if isinstance(idx, Mask2):
+            raise Unsupported("boolean-mask read")
+        d = I.to_num(idx)
+        return RowView(self, d)
+
+    def setitem(self, I, idx, value):
+        if isinstance(idx, Mask2):
+            if idx.arr is not self:
+                raise Unsupported("mask store with a mask of another array")
+            self._write(I, "a mask store")
+            old = self.elem
+            mask = idx
+
+            def new(d, k, old=old):
+                v = old(d, k)
+                c = mask.decide(I, v)
+                if c is False:
+                    return v
+                if c is True:
+                    return value
+                raise Unsupported("mask store whose condition is not decided on the element (%r)" % (v,))
+
+            self.elem = new
+            return
+        if isinstance(idx, tuple) and len(idx) == 2 and not any(isinstance(x, slice) for x in idx):
+            self._write(I, "an element store")
+            d0, k0 = I.to_num(idx[0]), I.to_num(idx[1])
+            old = self.elem
+            if alg.has_bound(d0) or alg.has_bound(k0):
+                raise Unsupported("element store at a bound index outside a generic loop")
+            P = I.P
+
+            def new(d, k, old=old):
+                if (d - d0).is_zero() and (k - k0).is_zero():
+                    return value
+                zc = z3.And(P.z(d) == P.z(d0), P.z(k) == P.z(k0))
+                if not P.feasible(zc):
+                    return old(d, k)
+                if not P.feasible(z3.Not(zc)):
+                    return value
+                return alg.z3atom(z3.If(zc, P.z(I.to_num(value)), P.z(I.to_num(old(d, k)))))
+
+            self.elem = new
+            return
+        raise Unsupported("array store at %r" % (idx,))
+
+    def m_copy(self, I):
+        return Arr2(self.D, self.G, self.elem)
+
+    def m_max(self, I, axis=None, keepdims=False):
+        return np_max(I, self, axis=axis, keepdims=keepdims)
+
+
+class Mask2:
+    def __init__(self, arr, op, other):
+        self.arr, self.op, self.other = arr, op, other
+
+    def decide(self, I, v):
+        """True / False when the comparison is decided for the element value v under the path facts, else None"""
+        v = I.to_num(v)
+        if isinstance(self.op, (ast.LtE, ast.Lt)) and isinstance(self.other, (int, float)) and self.other == 0 and alg.is_positive(v):
+            return False
+        c = I.compare(self.op, v, self.other)
+        if c is True or c is False:
+            return c
+        if not I.P.feasible(c.e):
+            return False
+        if not I.P.feasible(z3.Not(c.e)):
+            return True
+        return None
+
+
+class RowView(Model):
+    """arr[i, :] - reads give the row as a sequence; `out=` stores define the row"""
+
+    def __init__(self, arr, d):
+        self.arr, self.d = arr, d
+
+    def seq(self, I):
+        arr, d = self.arr, self.d
+        return SymSeq("%s[%s,:]" % (arr.name, d.key()), arr.G, lambda k: arr.elem(d, k))
+
+    def assign(self, I, rowfn):
+        """rowfn(k) -> value; defines row d.  Inside a generic loop over all rows (index d is the loop's generic index) the
+        definition holds for every row once the loop is finished."""
+        arr, d0 = self.arr, self.d
+        arr._write(I, "a row store")
+        gens = I.P.ghost.get("generic_indices", [])
+        old = arr.elem
+        d0_atoms = d0.atoms()
+        gen_atoms = set()
+        for g in gens:
+            gen_atoms |= g.atoms()
+        if len(d0.terms) == 1 and d0_atoms and d0_atoms <= gen_atoms and list(d0.terms.values()) == [1]:
+            # row index is exactly the generic index of an enclosing independent-iterations loop over the rows
+            g_atom = list(d0_atoms)[0]
+            arr.elem = lambda d, k: _subst_atom(rowfn(k), g_atom, d)
+            arr.all_rows_defined_by_loop = True
+            return
+        P = I.P
+
+        def new(d, k, old=old):
+            if (d - d0).is_zero():
+                return rowfn(k)
+            if not P.feasible(P.z(d) == P.z(d0)):
+                return old(d, k)
+            raise Unsupported("row store at a symbolic row read back at another symbolic row")
+
+        arr.elem = new
+
+    def getitem(self, I, idx):
+        return self.seq(I).getitem(I, idx)
+
+    def m___len__(self, I):
+        return _num_or_int(self.arr.G)
+
+    def iterate(self, I):
+        raise Unsupported("iteration over a symbolic row")
+
+
+def _subst_atom(v, atom, repl):
+    if isinstance(v, Num):
+        return _num_or_int(v.subst({atom: repl}))
+    return v
+
+
+def np_max2(I, x, axis=None, keepdims=False):
+    if isinstance(x, Arr2):
+        if axis in (-1, 1) and keepdims:
+            name = I.P.fresh_name("rowmax[%s]" % x.name)
+            return Arr2(x.D, 1, lambda d, k: alg.raw_app(name, d))
+        if axis is None:
+            return alg.sym(I.P.fresh_name("max[%s]" % x.name))
+        raise Unsupported("np.max(axis=%r, keepdims=%r)" % (axis, keepdims))
+    return None
+
+
+_np_max_1d = np_max
+
+
+def np_max(I, x, axis=None, keepdims=False):  # noqa: F811
+    r = np_max2(I, x, axis, keepdims)
+    if r is not None:
+        return r
+    if isinstance(x, RowView):
+        x = x.seq(I)
+    return _np_max_1d(I, x, axis, keepdims)
+
+
+def _elementwise2(f1):
+    def g(I, x, *a, out=None, **k):
+        if isinstance(x, Arr2):
+            return x.map(I, lambda v: f1_scalar[f1](I, v), out=out)
+        return f1(I, x, *a, **k)
+
+    return g
+
+
+f1_scalar = {}
+
+
+def np_convolve(I, a, b):
+    """np.convolve(a, b)[k] = sum_{j=0..k} a[j] b[k-j] for k < min(len a, len b)  (full convolution, leading part)"""
+    if isinstance(a, RowView):
+        a = a.seq(I)
+    if isinstance(b, RowView):
+        b = b.seq(I)
+    if not (isinstance(a, SymSeq) and isinstance(b, SymSeq)):
+        raise Unsupported("np.convolve of %r, %r" % (type(a).__name__, type(b).__name__))
+    n = a.length + b.length - 1
+
+    def elem(k):
+        j = alg.fresh_bound()
+        return alg.bigsum("", I.to_num(k) + 1, I.to_num(a.core_at(I, j)) * I.to_num(b.core_at(I, I.to_num(k) - j)), bound=j)
+
+    s = SymSeq("convolve(%s,%s)" % (a.key, b.key), n, elem)
+    s.valid_prefix = a.length  # elem(k) is the stated sum only for k < len(a) = len(b)
+    return s
+
+
+def sp_fftconvolve(I, a, b, axes=None, mode="full"):
+    """scipy.signal.fftconvolve along the last axis = row-wise np.convolve (exact in the real model; its error is a bounded clause of C02)"""
+    if not (isinstance(a, Arr2) and isinstance(b, Arr2)):
+        raise Unsupported("fftconvolve of %r" % type(a).__name__)
+
+    def elem(d, k):
+        j = alg.fresh_bound()
+        return alg.bigsum("", I.to_num(k) + 1, I.to_num(a.elem(d, j)) * I.to_num(b.elem(d, I.to_num(k) - j)), bound=j)
+
+    return Arr2(a.D, a.G + b.G - 1, elem)
+
+
+def np_ascontiguousarray(I, x, dtype=None):
+    if isinstance(x, Arr2):
+        return x
+    if isinstance(x, SymSeq):
+        # a sequence of rows
+        probe = x.core_at(I, alg.fresh_bound())
+        if isinstance(probe, RowView):
+            probe = probe.seq(I)
+        if isinstance(probe, SymSeq):
+            G = probe.length
+
+            def elem(d, k):
+                row = x.core_at(I, d)
+                if isinstance(row, RowView):
+                    row = row.seq(I)
+                return row.core_at(I, k)
+
+            return Arr2(x.length, G, elem)
+    raise Unsupported("ascontiguousarray of %r" % type(x).__name__)
+
+
+def np_empty_like(I, x):
+    if isinstance(x, Arr2):
+        name = I.P.fresh_name("uninit")
+        return Arr2(x.D, x.G, lambda d, k: alg.raw_app(name, d, k))
+    raise Unsupported("empty_like")
+
+
+def np_copyto(I, dst, src):
+    if isinstance(dst, Arr2) and isinstance(src, Arr2):
+        dst._write(I, "np.copyto")
+        se = src.elem
+        dst.elem = lambda d, k: se(d, k)
+        return None
+    raise Unsupported("copyto")
+
+
+def np_add(I, a, b, out=None, order=None):
+    r = a.binop(I, ast.Add(), b, False) if isinstance(a, Arr2) else (b.binop(I, ast.Add(), a, True) if isinstance(b, Arr2) else I.binop(ast.Add(), a, b))
+    if out is not None:
+        if not isinstance(out, Arr2):
+            raise Unsupported("np.add out=")
+        out._write(I, "np.add(out=)")
+        out.elem = r.elem
+        return out
+    return r
+
+
+def np_logaddexp_accumulate(I, x, out=None):
+    if isinstance(x, RowView):
+        x = x.seq(I)
+    if not isinstance(x, SymSeq):
+        raise Unsupported("logaddexp.accumulate of %r" % type(x).__name__)
+
+    def rowfn(k):
+        j = alg.fresh_bound()
+        return alg.slog(alg.bigsum("", I.to_num(k) + 1, alg.sexp(I.to_num(x.core_at(I, j))), bound=j))
+
+    if out is None:
+        return SymSeq("logcumsum(%s)" % x.key, x.length, rowfn)
+    if not isinstance(out, RowView):
+        raise Unsupported("accumulate(out=%r)" % type(out).__name__)
+    out.assign(I, rowfn)
+    return out
+
+
+def np_full(I, shape, value, order=None, dtype=None):
+    if isinstance(shape, tuple) and len(shape) == 2:
+        return Arr2(I.to_num(shape[0]), I.to_num(shape[1]), lambda d, k: value)
+    raise Unsupported("np.full shape")
+
+
+def _np_log_any(I, x, out=None, **kw):
+    if isinstance(x, Arr2):
+        return x.map(I, lambda v: _log(I, v), out=out)
+    return np_log(I, x)
+
+
+def _np_exp_any(I, x, out=None, **kw):
+    if isinstance(x, Arr2):
+        return x.map(I, lambda v: _exp(I, v), out=out)
+    return np_exp(I, x)
+
+
+class _LogAddExp(Model):
+    def m_accumulate(self, I, x, out=None, **k):
+        return np_logaddexp_accumulate(I, x, out=out)
+
+
+EXTERNAL.update({n: PyBuiltin(n, f) for n, f in {
+    "numpy.max": np_max, "numpy.convolve": np_convolve, "scipy.signal.fftconvolve": sp_fftconvolve, "numpy.ascontiguousarray": np_ascontiguousarray,
+    "numpy.empty_like": np_empty_like, "numpy.copyto": np_copyto, "numpy.add": np_add, "numpy.full": np_full, "numpy.log": _np_log_any, "numpy.exp": _np_exp_any,
+}.items()})
+EXTERNAL["numpy.logaddexp"] = _LogAddExp()
